@@ -353,9 +353,13 @@ def ContWf (n : Nat) : Cont → Prop
   | .bitmap bs => bs.length = bitmapBytes ∧ (bitmapValuesFrom 0 bs).length = n
   | .run rs => RunsOk rs ∧ (runValues rs).length = n
 
+/-- `key`: container keys are `value >> 16` of a uint64 value. -/
 structure EntryWf (e : Entry) : Prop where
   c : ContWf e.n e.c
-  key : e.key < 2 ^ 64
+  key : e.key < 2 ^ 48
+
+theorem EntryWf.key64 {e : Entry} (h : EntryWf e) : e.key < 2 ^ 64 :=
+  Nat.lt_trans h.key (by decide)
 
 theorem ContWf.values_ok {n : Nat} {c : Cont} (h : ContWf n c) :
     Asc c.values ∧ (∀ v ∈ c.values, v < 65536) ∧ c.values.length = n := by
@@ -392,7 +396,7 @@ theorem optimize_spec (e : Entry) (he : EntryWf e) (hn : 0 < e.n) :
   · next ht =>
     -- unchanged
     refine ⟨e, rfl, rfl, rfl, rfl, ?_⟩
-    refine ⟨?_, hn, hn16, he.key, ?_⟩
+    refine ⟨?_, hn, hn16, he.key64, ?_⟩
     · cases hc : e.c with
       | array vs => have := he.c; rw [hc] at this; exact this.2.1
       | bitmap bs => have := he.c; rw [hc] at this; exact this.1
@@ -415,7 +419,7 @@ theorem optimize_spec (e : Entry) (he : EntryWf e) (hn : 0 < e.n) :
         · rfl
         · exact bitmapValuesFrom_packFrom bitmapBytes 0 _ hasc (fun v hv => ⟨Nat.zero_le _, by
             have := hbound v hv; simp only [bitmapBytes]; omega⟩)
-    · refine ⟨?_, hn, hn16, he.key, ?_⟩
+    · refine ⟨?_, hn, hn16, he.key64, ?_⟩
       · simp only [Cont.ofValues]
         split
         · next h3 =>
@@ -557,5 +561,71 @@ theorem unmarshal_encodeP (b : Bitmap) (hb : BitmapWf b) (hsize : (encodeP b).le
 theorem itemOf_ok (e : Entry) (he : EntryWf e) : ItemOk (itemOf e) := by
   obtain ⟨h1, h2, h3⟩ := he.c.values_ok
   exact ⟨h1, h2, h3.symm⟩
+
+theorem strictAsc_asc (l : List Nat) (h : strictAsc l = true) : Asc l := by
+  induction l with
+  | nil => simp
+  | cons a r ih =>
+    cases r with
+    | nil => simp
+    | cons b r' =>
+      simp only [strictAsc, Bool.and_eq_true, decide_eq_true_eq] at h
+      have ih' := ih h.2
+      refine List.pairwise_cons.mpr ⟨?_, ih'⟩
+      intro x hx
+      rcases List.mem_cons.mp hx with e | e
+      · omega
+      · have := (List.pairwise_cons.mp ih').1 x e; omega
+
+theorem runsOk_sep (rs : List (Nat × Nat)) (h : runsOk rs = true) :
+    rs.Pairwise (fun a b => a.2 < b.1) ∧ ∀ r ∈ rs, r.1 ≤ r.2 := by
+  induction rs with
+  | nil => simp
+  | cons a r ih =>
+    cases r with
+    | nil =>
+      simp only [runsOk, decide_eq_true_eq] at h
+      exact ⟨by simp, fun x hx => by simp at hx; subst hx; exact h⟩
+    | cons b r' =>
+      simp only [runsOk, Bool.and_eq_true, decide_eq_true_eq] at h
+      obtain ⟨i1, i2⟩ := ih h.2
+      refine ⟨List.pairwise_cons.mpr ⟨?_, i1⟩, ?_⟩
+      · intro x hx
+        rcases List.mem_cons.mp hx with e | e
+        · subst e; exact h.1.2
+        · have h1 := (List.pairwise_cons.mp i1).1 x e
+          have h2 := i2 b (by simp)
+          have := h.1.2
+          show a.2 < x.1; omega
+      · intro x hx
+        rcases List.mem_cons.mp hx with e | e
+        · subst e; exact h.1.1
+        · exact i2 x e
+
+theorem wf_contWf (n : Nat) (c : Cont) (h : c.wf n = true) : ContWf n c := by
+  cases c with
+  | array vs =>
+    simp only [Cont.wf, Bool.and_eq_true, beq_iff_eq, List.all_eq_true, decide_eq_true_eq] at h
+    exact ⟨strictAsc_asc vs h.1.1, h.2, h.1.2⟩
+  | bitmap bs =>
+    simp only [Cont.wf, Bool.and_eq_true, beq_iff_eq] at h
+    exact ⟨h.1, h.2⟩
+  | run rs =>
+    simp only [Cont.wf, Bool.and_eq_true, beq_iff_eq, List.all_eq_true, decide_eq_true_eq, bne_iff_ne, ne_eq] at h
+    obtain ⟨s1, s2⟩ := runsOk_sep rs h.1.1.2
+    exact ⟨⟨s1, fun r hr => ⟨s2 r hr, h.2 r hr⟩⟩, h.1.2⟩
+
+theorem wf_itemOk (it : Item) (h : it.c.wf it.n = true) : ItemOk it := by
+  obtain ⟨h1, h2, h3⟩ := (wf_contWf it.n it.c h).values_ok
+  exact ⟨h1, h2, h3.symm⟩
+
+theorem walkVerdict_none (w : Walk) (h : walkVerdict w = none) :
+    w.err = none ∧ ∀ it ∈ w.items, ItemOk it := by
+  unfold walkVerdict at h
+  split at h
+  · next hall =>
+    refine ⟨h, fun it hit => wf_itemOk it ?_⟩
+    exact List.all_eq_true.mp hall it hit
+  · cases h
 
 end PV.C04
